@@ -58,7 +58,12 @@ Expect(S, p) ==
          LET t == Trav(SearchTrav(p.q), S, MSet(p), p.a[1], FWD, UNK_ERR, NoFilter, NoFilter)
          IN QOk(<<FirstMatch(p.attr, t.out, p.a[2])>>)
 
-ProbeOK(S, p) == IsOpen(S, p) \/ Same(Expect(S, p), p.res)
+\* a search started at a vertex that is not in the universe: C08 fixes no answer (the code raises), only that
+\* "a vertex outside the universe is never returned"
+ForeignStart(p) == p.q \in {"bfs", "dfsr", "dfsi"} /\ MSet(p) # NoUni /\ p.a[1] \notin MSet(p)
+ForeignOK(p) == p.res.err # "" \/ p.res.out = <<0>> \/ (Len(p.res.out) = 1 /\ p.res.out[1] \in MSet(p))
+
+ProbeOK(S, p) == IF ForeignStart(p) THEN ForeignOK(p) ELSE IsOpen(S, p) \/ Same(Expect(S, p), p.res)
 
 \* relational clauses on the LOGGED answers (link-only filters)
 NbIdx(r, dir) == {j \in DOMAIN r.probes :
